@@ -4,6 +4,7 @@ import (
 	"fmt"
 	"go/token"
 	"go/types"
+	"os"
 	"strings"
 
 	"golang.org/x/tools/go/ssa"
@@ -365,7 +366,25 @@ func (c *Ctx) c15Accept(serve, loopFn *ssa.Function, memo map[*ssa.Function]int)
 		if !ok {
 			continue
 		}
+		if os.Getenv("DVERIF_DEBUG") != "" {
+			fmt.Fprintf(os.Stderr, "c15 if %s cond %T %v\n", b, ifi.Cond, ifi.Cond)
+		}
 		cond, neg := flow.Cond(ifi.Cond, true)
+		if phi, isPhi := cond.(*ssa.Phi); isPhi && !neg {
+			// a && b evaluated as a value (a case of a tagless switch): true only when its last operand was
+			var last ssa.Value
+			n := 0
+			for _, e := range phi.Edges {
+				if k, isK := e.(*ssa.Const); isK && k.Value != nil && k.Value.String() == "false" {
+					continue
+				}
+				last = e
+				n++
+			}
+			if n == 1 {
+				cond = last
+			}
+		}
 		call, ok := cond.(*ssa.Call)
 		if !ok {
 			continue
